@@ -429,6 +429,12 @@ static void group_area(vh_ctx *c)
   ld area = 0, mag = 0, tol;
   if (N >= 3) { sm = gen_knots(c, N, x); om = gen_ordinates(c, N, x, y); }
   else { sm = 0; om = 0; x[0] = vh_range(c, -10, 10); x[1] = x[0] + vh_logunif(c, -4, 4); y[0] = vh_gauss(c); y[1] = vh_gauss(c); }
+  /* almost evenly spaced abscissae at a small scale (third seeded wave, side PRNG stream): spacing 1e-4..1e-2 with a relative jitter of
+     1e-6..1e-3 - the spacings then agree to ~1e-8 in ABSOLUTE terms although the grid is irregular; the trapezoid sum knows no such case */
+  { vh_ctx cc = *c; cc.s[0] ^= 0xF1357AEA2E62A9C5ULL; (void)vh_u64(&cc); (void)vh_u64(&cc);
+    if (N >= 3 && vh_coin(&cc, 0.12)) { double h = pow(10.0, vh_range(&cc, -4.0, -2.0)), jit = pow(10.0, vh_range(&cc, -6.0, -3.0)); x[0] = vh_range(&cc, -1.0, 1.0);
+      for (i = 1; i < N; i++) { x[i] = x[i - 1] + h * (1.0 + jit * vh_range(&cc, -1.0, 1.0)); }
+      vh_obs("areas_on_almost_even_small_grids", 1); } }
   vh_class(c, "area-%s-%s-N%s", SPACING[sm], ORD[om], N <= 4 ? "2-4" : N <= 10 ? "5-10" : N <= 20 ? "11-20" : "21-40");
   vh_desc(c, "group=area points=%zu spacing=%s ordinates=%s x0=%.17g xn=%.17g y0=%.17g", N, SPACING[sm], ORD[om], x[0], x[N - 1], y[0]);
   dumpxy(c, "polyline", x, y, N);
